@@ -31,7 +31,7 @@ def run(chk, program, tier):
     R.gen_dec(chk, program, slots=[], rule='FRESH-MSG', with_msg=False, with_flow=True)
     # RA-SAFE from C04
     from .. import rules_reasm as RR
-    RR.decide(chk, program, tier, ['RA-SAFE', 'RA-RESET', 'RA-PRE', 'RA-DONE', 'RA-KEY'])
+    RR.decide(chk, program, tier, ['RA-SAFE', 'RA-RESET', 'RA-PRE', 'RA-DONE', 'RA-KEY', 'RA-SEQ'])
 
 class _Sub:
     """forwards only the selected rules of a shared rule function"""
